@@ -3,6 +3,8 @@ import json
 
 
 def run(ctx):
+    if ctx.replay:
+        return rerun(ctx)
     # 1. exhaustive model check: every sequence of <=2 packets, every chunking, every single-cell alteration
     elens = ctx.pick("{0, 2}", "{0, 1, 3}")
     r = ctx.model_check("net", "MC_PacketStream", "MC_PacketStream.cfg", constants={"ELens": elens},
@@ -17,9 +19,6 @@ def run(ctx):
                            constants={"MaxPkts": ctx.pick(2, 3), "Depth": 60},
                            simulate="num=%d" % ctx.pick(1500, 12000), depth=61, seed=ctx.seed, timeout=1500)
     allb = bs + walks
-    if ctx.replay:
-        d = json.load(open(ctx.replay))["detail"]
-        allb = [{"behaviour": d["behaviour"], "sub": d["sub"]}]
     inp = ctx.path("in", "behaviours.ndjson")
     with open(inp, "w") as fh:
         for b in allb:
@@ -27,13 +26,12 @@ def run(ctx):
     # 3. replay into PacketWriter.WritePacket / PacketReader.ReadPacket over a chunked, alterable stream
     recs = ctx.go_replay("packet", "TestReplay", inp, shards=ctx.pick(2, 4), timeout=ctx.pick(600, 1800))
     ctx.absorb(recs)
-    if not ctx.replay:
-        for b in (walks[:2] + bs[-1:]):
-            ctx.sample([{k: s[k] for k in ("op", "hv", "pl", "el", "at", "kind", "v", "n", "nout", "dead")} for s in b])
+    for b in (walks[:2] + bs[-1:]):
+        ctx.sample([{k: s[k] for k in ("op", "hv", "pl", "el", "at", "kind", "v", "n", "nout", "dead")} for s in b])
     return ctx.finish(
         rule="a behaviour = one TLC-generated run (writes of packets, chunk deliveries, at most one in-transit "
              "alteration, close, eof): all complete runs of one packet with <=%d events by BFS + %d random walks; "
-             "distinct by its event sequence; non-trivial if at least one chunk reaches the reader" % (d if not ctx.replay else 0, len(walks)),
+             "distinct by its event sequence; non-trivial if at least one chunk reaches the reader" % (d, len(walks)),
         assumptions=["FNV-64a is treated as an injective symbolic hash (a single altered byte of equal-length input "
                      "always changes FNV-1a; length changes collide with probability 2^-64)",
                      "payload/ext cells stand for blocks of 1..349525 / 1..341 bytes chosen per behaviour",
@@ -41,3 +39,13 @@ def run(ctx):
                      "so their alteration is modelled but not required to be rejected",
                      "decoding of arbitrary unstructured garbage is not enumerated (only single alterations of "
                      "well-formed streams)"])
+
+
+def rerun(ctx):
+    """Re-execute exactly the behaviour (and concretization) stored in a replay file."""
+    d = json.load(open(ctx.replay))["detail"]
+    inp = ctx.path("in", "behaviours.ndjson")
+    with open(inp, "w") as fh:
+        fh.write(json.dumps({"behaviour": d["behaviour"], "sub": d["sub"]}) + "\n")
+    ctx.absorb(ctx.go_replay("packet", "TestReplay", inp))
+    return ctx.finish(rule="re-execution of one stored behaviour", assumptions=["replay of %s" % ctx.replay])
